@@ -42,6 +42,14 @@ func endpoints() []endpoint {
 			return c
 		}
 	}
+	withOrg := func(f func() *provider.Config) func() *provider.Config {
+		return func() *provider.Config {
+			c := f()
+			c.Organisation = &provider.Organisation{Name: "Org", DisplayName: "Organisation", URL: "https://org.example"}
+			c.ContactPerson = &provider.ContactPerson{ContactType: "technical", Company: "Org", GivenName: "A", SurName: "B", EmailAddress: "a@org.example", TelephoneNumber: "1"}
+			return c
+		}
+	}
 	badAlg := func() *provider.Config {
 		c := idp.DefaultConf()
 		c.IDPConfig.SignatureAlgorithm = "http://example.org/unusable"
@@ -86,7 +94,9 @@ func endpoints() []endpoint {
 		{"attribute", base, func(st *idp.Storage) { regSP(st); st.Logins["login"] = user }, func() idp.ReqSpec { return idp.ReqSpec{Method: http.MethodPost, Path: "/attribute", RawBody: &aq} }},
 		{"attribute-unusable-algorithm", badAlg, func(st *idp.Storage) { regSP(st); st.Logins["login"] = user }, func() idp.ReqSpec { return idp.ReqSpec{Method: http.MethodPost, Path: "/attribute", RawBody: &aq} }},
 		{"metadata", base, func(*idp.Storage) {}, get("/metadata")},
+		{"metadata-with-organisation", withOrg(base), func(*idp.Storage) {}, get("/metadata")},
 		{"metadata-signed", signedMeta(idp.RSASHA256), func(*idp.Storage) {}, get("/metadata")},
+		{"metadata-signed-with-organisation", withOrg(signedMeta(idp.RSASHA256)), func(*idp.Storage) {}, get("/metadata")},
 		{"metadata-signed-unusable-algorithm", signedMeta("http://example.org/unusable"), func(*idp.Storage) {}, get("/metadata")},
 		{"certificate", base, func(*idp.Storage) {}, get("/certificate")},
 		{"ready", base, func(*idp.Storage) {}, get("/ready")},
@@ -230,7 +240,7 @@ func Run(dir, tier string, seed int64) error {
 			switch {
 			case strings.HasPrefix(ep.name, "metadata"):
 				epk = 1
-				signConf = ep.name != "metadata"
+				signConf = ep.name != "metadata" && ep.name != "metadata-with-organisation"
 				signerOK = ep.name != "metadata-signed-unusable-algorithm"
 				for _, f := range fired { // an empty certificate passes getMetadataCert and fails in the signer
 					if f.Op == "GetMetadataSigningKey" && f.Kind == "emptycert" {
@@ -250,6 +260,6 @@ func Run(dir, tier string, seed int64) error {
 		_ = ref
 	}
 	run.Res.Exhaustive = true
-	run.Res.Rule = "for each of 14 endpoint configurations (SSO; callback POST / Redirect with usable and unusable signature algorithm; logout; attribute query with usable / unusable algorithm; metadata unsigned / signed / signed with unusable algorithm; certificate; readiness; health) the storage operations of a fault-free request are recorded, then every (operation, call occurrence, fault kind) is injected singly (thorough: also every pair): returned error in five shapes (opaque, wrapping context.Canceled / context.DeadlineExceeded, io.EOF, a sentinel value) for all operations, and for the two signing-key getters additionally nil record, key without certificate, certificate without key, empty certificate. Oracle: error reply, no Success, no user data, no metadata document, no CreateAuthRequest after the fault, no panic. The metadata / certificate / readiness replies are also compared with the Coq model; the other endpoints' models are compared under faults in C01, C08, C12, C13. distinct = (endpoint, fault, #faults, reply kind, status)."
+	run.Res.Rule = "for each of 16 endpoint configurations (SSO; callback POST / Redirect with usable and unusable signature algorithm; logout; attribute query with usable / unusable algorithm; metadata unsigned / signed / signed with unusable algorithm, with and without organisation and contact data; certificate; readiness; health) the storage operations of a fault-free request are recorded, then every (operation, call occurrence, fault kind) is injected singly (thorough: also every pair): returned error in five shapes (opaque, wrapping context.Canceled / context.DeadlineExceeded, io.EOF, a sentinel value) for all operations, and for the two signing-key getters additionally nil record, key without certificate, certificate without key, empty certificate. Oracle: error reply, no Success, no user data, no metadata document, no CreateAuthRequest after the fault, no panic. The metadata / certificate / readiness replies are also compared with the Coq model; the other endpoints' models are compared under faults in C01, C08, C12, C13. distinct = (endpoint, fault, #faults, reply kind, status)."
 	return run.Finish()
 }
